@@ -168,6 +168,18 @@ def join_proto_model(chk):
         raise vlib.Broken("the broken variant of JoinProto is not rejected: the invariants are vacuous")
 
 
+def suspend_resume_model(chk):
+    """Level B: ABT_self_suspend against ABT_thread_resume from another stream, as coded (C11)"""
+    d = os.path.join(VERIF, "spec", "core")
+    vlib.tlc_check(chk, "SuspendResume: suspension callback (count, publish BLOCKED) against a retrying resumer and two schedulers as coded, exhaustive incl. termination under fairness",
+                   os.path.join(d, "SuspendResume.tla"), os.path.join(d, "SuspendResumeMC.cfg"), timeout=300)
+    for cfg, what in (("SuspendResumeStoreEarly.cfg", "BLOCKED published before the context is saved"), ("SuspendResumeNoCheck.cfg", "a resume that does not test the state")):
+        r = vlib.tlc_check(chk, "SuspendResume with %s (must be violated: the ULT runs on two streams)" % what, os.path.join(d, "SuspendResume.tla"),
+                           os.path.join(d, cfg), timeout=300, expect="violation")
+        if not r["violated"]:
+            raise vlib.Broken("the variant of SuspendResume (%s) is not rejected: the invariants are vacuous" % what)
+
+
 def run_exec(pid, tier, seed, emphasis, scns=("exec",), pre=None):
     chk = vlib.Check(pid, tier, seed)
     quick = tier == "quick"
